@@ -20,6 +20,10 @@ CHECKS = {
    text="Model-based state-machine search over rep/respondent (1-3 contexts) and xrep/xrespondent with 1-4 scripted connections: every reply must appear on exactly the requesting pipe with wire bytes routing-words||id||body; per-pipe transmission logs must equal the model after a sentinel round (nothing extra anywhere); replies to vanished pipes are discarded; Send without a request fails.",
    note="Which pending request a Recv obtains is checked with a validity predicate (oldest pending of some pipe). Routing depth 0..7 (default TTL 8). Histories bounded by rapid's step count.",
    technique="stateful property-based testing (rapid) against a reference model over a virtual transport, sentinel for absence"),
+ "C09": dict(
+   text="(A) Boundary search on the hop limit: a scripted peer injects messages that crossed k connections (k routing words / hop byte k-1) into each of the 8 TTL-enforcing receivers, each probe followed by an in-limit sentinel so that 'dropped' is decided without a timeout; delivered <=> k<=TTL (PAIR1 k<=TTL+1) is compared between cooked and raw. Quick: generated (TTL,k) with boundary bias; thorough adds the full enumeration TTL 1..255 x k in TTL-1..TTL+2 (exhaustive on that axis). (B) Real Device chains of 0..4 forwarders (req/rep, survey, pair1, pipeline; inproc, tcp) with 1-3 concurrent clients: payloads unchanged, replies return to the asking client, answered <=> crossed connections <= server TTL.",
+   note="k=0 has no encoding (a received message crossed at least one connection). In (B) 'not answered' is decided by a 250 ms window (absence is genuine, so no false alarm; a wrongly delivered message arrives in microseconds). STAR/BUS chains are covered by C08.",
+   technique="property-based testing (rapid) with sentinel-decided boundary probes over a virtual transport, plus exhaustive enumeration of the TTL axis in the thorough tier and generated device-chain topologies"),
 }
 
 ALL = ["C%02d" % i for i in range(1, 21)]
